@@ -83,5 +83,23 @@ __CPROVER_ensures(/*whole-array-returned*/ nix_exc == EXC_NONE && gh_views == 1 
                   (ghost_k < data->extent.rank ==> (gh_view_offset_k == 0 && gh_view_count_k == data->extent.dims[ghost_k])))
 NIX_CANARY(mtag_untagged_whole) __CPROVER_assigns(nix_exc, gh_views, gh_view_count_rank, gh_view_offset_rank, gh_view_count_k, gh_view_offset_k, gh_view_extent_dims, gh_pushed)
 ;
+
+/* region E: getOffsetAndCount(MultiTag, array, indices, ...) - the gate on the index list
+   "an index beyond the number of positions raises an out-of-bounds error" (also beyond the number of extents rows when the tag has extents) */
+static inline bool DataArray_bool(const DataArray *a)
+{ return !a->is_none; }
+#define NPOS (positions->extent.dims[0])
+#define NEXT (extents->extent.dims[0])
+NIX_THROWS void mtag_index_gate(const vec_ndsize *indices, const DataArray *positions, const DataArray *extents, NDSize *extent_size)
+__CPROVER_requires(__CPROVER_is_fresh(indices, sizeof(vec_ndsize)) && indices->n <= VEC_MAX && __CPROVER_is_fresh(indices->data, indices->n * sizeof(ndsize_t)))
+__CPROVER_requires(__CPROVER_is_fresh(positions, sizeof(DataArray)) && !positions->is_none && NDV_FRESH(positions->extent) && positions->extent.rank >= 1 &&
+                   __CPROVER_is_fresh(extents, sizeof(DataArray)) && (extents->is_none || (NDV_FRESH(extents->extent) && extents->extent.rank >= 1)) && __CPROVER_is_fresh(extent_size, sizeof(NDSize)) && nix_exc == EXC_NONE)
+__CPROVER_ensures(/*index-beyond-the-number-of-positions-throws*/ (ghost_k < indices->n && indices->data[ghost_k] >= NPOS) ==> nix_exc == EXC_OutOfBounds)
+__CPROVER_ensures(/*index-beyond-the-number-of-extents-throws*/ (!extents->is_none && ghost_k < indices->n && indices->data[ghost_k] >= NEXT) ==> nix_exc == EXC_OutOfBounds)
+__CPROVER_ensures(/*valid-indices-are-accepted*/ (indices->n > 0 && indices->data[gh_max_idx] < NPOS && (extents->is_none || indices->data[gh_max_idx] < NEXT)) ==> nix_exc == EXC_NONE)
+__CPROVER_ensures(/*an-empty-list-is-accepted*/ indices->n == 0 ==> nix_exc == EXC_NONE)
+__CPROVER_ensures(/*no-other-exception*/ nix_exc == EXC_NONE || nix_exc == EXC_OutOfBounds)
+NIX_CANARY(mtag_index_gate) __CPROVER_assigns(nix_exc, gh_max_idx; *extent_size)
+;
 #undef RV
 #endif
